@@ -34,6 +34,7 @@ ASSUMPTIONS = [
     "wall-time / memory header values are not judged (the statement is about which batches are grown)",
 ]
 SHARDS = {"quick": 16, "thorough": 16}
+RULE += '; half of the crops take a second function argument called fn'
 MIN_REACH = {
     "crops_named_by_a_relative_parent_dir": {"quick": 6, "thorough": 60},
     "crops_whose_function_takes_an_argument_called_fn": {"quick": 8, "thorough": 60},
